@@ -261,6 +261,10 @@ func flatOf(ps []pt, l geom.Layout) []float64 {
 	return out
 }
 
+// sridOf picks an SRID from the size of the data (the centroid functions ignore it:
+// geographic codes among them must not change an answer).
+func sridOf(n int) int { return []int{0, 4326, 3857, 4269, 0, 4258, 27700}[n%7] }
+
 func ep(p pt) exact.P2 { return exact.Pt(float64(p[0]), float64(p[1])) }
 
 var u53 = new(big.Rat).SetFrac(big.NewInt(1), new(big.Int).Lsh(big.NewInt(1), 53))
@@ -320,7 +324,7 @@ func propPoints(c Case, l geom.Layout) error {
 	k := exact.Mul(big.NewRat(3*(n+2), 1), u53)
 	tx, ty := exact.Mul(k, exact.Quo(ax, nn)), exact.Mul(k, exact.Quo(ay, nn))
 	flat := flatOf(ps, l)
-	mp := geom.NewMultiPointFlat(l, flat)
+	mp := geom.NewMultiPointFlat(l, flat).SetSRID(sridOf(len(flat)))
 	if err := within("MultiPointCentroid", xy.MultiPointCentroid(mp), wx, wy, tx, ty, 2); err != nil {
 		return err
 	}
@@ -337,7 +341,7 @@ func propPoints(c Case, l geom.Layout) error {
 		ends = append(ends, (i+1)*l.Stride())
 	}
 	ends = append(ends, len(flat))
-	mpe := geom.NewMultiPointFlat(l, flat, geom.NewMultiPointFlatOptionWithEnds(ends))
+	mpe := geom.NewMultiPointFlat(l, flat, geom.NewMultiPointFlatOptionWithEnds(ends)).SetSRID(sridOf(len(flat) + 1))
 	if mpe.NumPoints() <= len(ps) {
 		return fmt.Errorf("harness: MultiPoint with EMPTY members has %d members for %d points", mpe.NumPoints(), len(ps))
 	}
@@ -430,8 +434,8 @@ func propLines(c Case, l geom.Layout) error {
 	var ends []int
 	for _, ln := range c.Rings {
 		f := flatOf(ln, l)
-		lss = append(lss, geom.NewLineStringFlat(l, f))
-		lrs = append(lrs, geom.NewLinearRingFlat(l, f))
+		lss = append(lss, geom.NewLineStringFlat(l, f).SetSRID(sridOf(len(f))))
+		lrs = append(lrs, geom.NewLinearRingFlat(l, f).SetSRID(sridOf(len(f)+1)))
 		flat = append(flat, f...)
 		ends = append(ends, len(flat))
 	}
@@ -442,7 +446,7 @@ func propLines(c Case, l geom.Layout) error {
 	if err := within("LinearRingsCentroid", xy.LinearRingsCentroid(lrs[0], lrs[1:]...), wx, wy, tx, ty, s); err != nil {
 		return err
 	}
-	mls := geom.NewMultiLineStringFlat(l, flat, ends)
+	mls := geom.NewMultiLineStringFlat(l, flat, ends).SetSRID(sridOf(len(flat)))
 	if err := within("MultiLineCentroid", xy.MultiLineCentroid(mls), wx, wy, tx, ty, s); err != nil {
 		return err
 	}
@@ -517,10 +521,10 @@ func propPolygons(c Case, l geom.Layout, polys [][][]pt, what string) error {
 			mflat = append(mflat, f...)
 			mends = append(mends, len(mflat))
 		}
-		gps = append(gps, geom.NewPolygonFlat(l, flat, ends))
+		gps = append(gps, geom.NewPolygonFlat(l, flat, ends).SetSRID(sridOf(len(flat))))
 		endss = append(endss, mends)
 	}
-	mp := geom.NewMultiPolygonFlat(l, mflat, endss)
+	mp := geom.NewMultiPolygonFlat(l, mflat, endss).SetSRID(sridOf(len(mflat)))
 	s := l.Stride()
 	var wx, wy, tx, ty *big.Rat
 	if A2.Sign() == 0 {
